@@ -83,9 +83,10 @@ theorem get_rule_cached_partial (n : Nat) (rules : Rules) (r : Rec) (k : Field) 
 /-- (part of `get_rule_current`) changing a field a rule used marks the rule field invalid
 (`observers_notified`), and an invalid or absent rule field is recomputed on the next access:
 the result of `get` is the rule body evaluated with every `.f` read through `get` in the record
-(with `k` removed from the invalid set), and that result is cached under `k`. -/
+(with `k` removed from the invalid set), and that result is cached under `k`. (Stated for a rule
+without guard; a guarded rule whose guard fails stores nothing.) -/
 theorem get_rule_recompute_partial (n : Nat) (rules : Rules) (r : Rec) (k : Field) (e : Expr)
-    (hr : lk rules k = some e) (hi : lk r.vals k = none ∨ k ∈ r.invalid) :
+    (hr : lk rules k = some ⟨none, e⟩) (hi : lk r.vals k = none ∨ k ∈ r.invalid) :
     let x := evalE (fun r f => let y := getN n rules [k] r f; (y.1, y.2.getD none)) e
       { r with invalid := r.invalid.erase k }
     getN (n + 1) rules [] r k = ({ x.1 with vals := setv x.1.vals k x.2 }, some x.2) ∧
@@ -97,7 +98,7 @@ theorem get_rule_recompute_partial (n : Nat) (rules : Rules) (r : Rec) (k : Fiel
 
 -- non-vacuity: f4 := .f0 + .f1 recomputed after f0 changed
 example :
-    let rules : Rules := [(4, .add (.fld 0) (.fld 1))]
+    let rules : Rules := [(4, ⟨none, .add (.fld 0) (.fld 1)⟩)]
     let r : Rec := { vals := [(0, some 5), (1, some 2), (4, some 3)], invalid := [4] }
     (getN 5 rules [] r 4).2 = some (some 7) ∧ (getN 5 rules [] r 4).1.invalid = [] ∧
     depsOf (getN 5 rules [] r 4).1 0 = [4] := by decide
